@@ -42,6 +42,8 @@ def run(prog, chk):
     chk.rule("C12.sentinel", "hash algorithm table shape and name-list terminators", floor=10)
     chk.rule("C12.unbounded", "no unbounded string copy (strcpy, strcat, sprintf, vsprintf, gets) outside reviewed exceptions", floor=1)
     chk.rule("C12.bounded", "bounded formatting calls pass the destination's own size", floor=50)
+    chk.rule("C12.owner", "parser / verifier / serializer functions release or hand over what they acquire on every path (shared with C19)", floor=150)
+    chk.rule("C12.dangling", "released fields of live objects are reassigned (no dangling pointer left in a parsed object)", floor=10)
 
     # ------------------------------------------------------------------ readers
     for name, unit, pi, li in PAIRS:
@@ -157,3 +159,23 @@ def run(prog, chk):
                 chk.extra.setdefault("bounded_not_judged", []).append("%s %s" % (inst, what))
                 continue
             chk.ob("C12.bounded", inst, verdict, what, loc=fn.loc(n.get("ln")), fn=fn)
+
+    # ------------------------------------------------------------------ ownership on parser paths (R4, shared with C19)
+    from .C19 import ownership_obligations
+    from ksirules.ownership import dangling_fields, is_release
+    from ksirules.model import lvalue_key as _lk, strip as _strip
+    units = {"fast_tlv.c", "tlv.c", "tlv_element.c", "tlv_template.c", "types.c", "types_base.c", "hash.c", "hashchain.c", "signature.c",
+             "signature_builder.c", "publicationsfile.c", "base32.c", "net.c", "log.c", "pkitruststore_openssl.c", "verification_rule.c", "policy.c"}
+    ownership_obligations(prog, chk, "C12.owner", units)
+    for fn in sorted(prog.all_functions(), key=lambda f: (f.unit, f.line)):
+        if fn.unit not in units:
+            continue
+        d = dangling_fields(prog, fn)
+        nrel = sum(1 for b, i, n in fn.calls() if is_release(n.get("fn")) and n["a"] and "->" in (_lk(_strip(n["a"][0]), fn) or ""))
+        for (b, i, field, name, w) in d:
+            chk.ob("C12.dangling", "%s:%s" % (fn.name, field), False,
+                   "%s(%s) and a path to the return on which the field is not reassigned: later use reads freed memory" % (name, field),
+                   loc=fn.loc(fn.elem_line(b, i)), fn=fn, path=path_lines(fn, w))
+        if nrel and not d:
+            chk.ob("C12.dangling", fn.name, True, "%d releases of object fields, each followed by reassignment or the end of the object" % nrel,
+                   loc=fn.loc(), fn=fn)
